@@ -435,7 +435,11 @@ def make_config(cfg, extra_args=None):
             args.append({"stdout": "--no-capture", "stderr": "--no-capture-stderr", "log": "--no-logcapture"}[name])
     if extra_args:
         args.extend(extra_args)
-    config = Configuration(args, load_config=False)
+    kwargs = {}
+    if cfg.get("schema"):
+        # name schema of outline rows (configuration-file option scenario_outline_annotation_schema)
+        kwargs["scenario_outline_annotation_schema"] = cfg["schema"]
+    config = Configuration(args, load_config=False, **kwargs)
     return config
 
 
